@@ -3,12 +3,14 @@
   Core Lean only (no Mathlib import anywhere below this file) so it links as a native executable.
 -/
 import GoSecs.Drv.Secs2
+import GoSecs.Drv.Supervisor
 
 open GoSecs
 
 /-- One handler per model; each returns `none` for commands it does not own. -/
 def handlers : List (String → List String → Option String) := [
-  Drv.Secs2.handle
+  Drv.Secs2.handle,
+  Drv.Supervisor.handle
 ]
 
 def dispatch (line : String) : String :=
